@@ -285,28 +285,34 @@ Fixpoint run_ops (d : dstore) (n : N) (os : list hop) : dstore * N * list hres :
    The callback parses the version from Describe(), emits a gauge, calls SetCurrentRevision and only
    then sets the leader flag; IsLeader() (the flag) is what admits write requests on the node. *)
 Inductive cb_pc := CbIdle | CbParsed (v : N) | CbInstalled (v : N) | CbLeading (v : N).
-Record node := mkNode { n_pc : cb_pc; n_lead : leader; n_flag : bool }.
-Definition node0 : node := mkNode CbIdle (mkL 0 0) false.
+Record node := mkNode { n_pc : cb_pc; n_lead : leader; n_flag : bool;
+                        n_pending : bool (* a follower read has passed its IsLeader() check and waits for the leader's answer *) }.
+Definition node0 : node := mkNode CbIdle (mkL 0 0) false false.
 
 Inductive nlabel :=
 | NParse (v : N)      (* getLeaderAndVersion succeeded with version v *)
 | NInstall            (* backend.SetCurrentRevision(version) *)
 | NFlag               (* l.leader = true *)
-| NRequest.           (* a client write arrives; admitted iff IsLeader() *)
+| NRequest            (* a client write arrives; admitted iff IsLeader() *)
+| NSyncCheck          (* revision.SyncReadRevision: `if IsLeader() { return }` passed (the node is not leader yet) *)
+| NSyncInstall (r : N). (* ... and the revision fetched from the old leader arrives: installRevision -> SetCurrentRevision(r) *)
 
 (* returns the revision handed out, if the request was admitted *)
 Definition nstep (x : node) (l : nlabel) : node * option N :=
   match l with
-  | NParse v => match n_pc x with CbIdle => (mkNode (CbParsed v) (n_lead x) (n_flag x), None) | _ => (x, None) end
+  | NParse v => match n_pc x with CbIdle => (mkNode (CbParsed v) (n_lead x) (n_flag x) (n_pending x), None) | _ => (x, None) end
   | NInstall => match n_pc x with
-                | CbParsed v => (mkNode (CbInstalled v) (set_current (n_lead x) v) (n_flag x), None)
+                | CbParsed v => (mkNode (CbInstalled v) (set_current (n_lead x) v) (n_flag x) (n_pending x), None)
                 | _ => (x, None)
                 end
-  | NFlag => match n_pc x with CbInstalled v => (mkNode (CbLeading v) (n_lead x) true, None) | _ => (x, None) end
+  | NFlag => match n_pc x with CbInstalled v => (mkNode (CbLeading v) (n_lead x) true (n_pending x), None) | _ => (x, None) end
   | NRequest =>
       if n_flag x
-      then let r := deal (n_lead x) + 1 in (mkNode (n_pc x) (mkL r r) true, Some r)
+      then let r := deal (n_lead x) + 1 in (mkNode (n_pc x) (mkL r r) true (n_pending x), Some r)
       else (x, None)
+  | NSyncCheck => if n_flag x then (x, None) else (mkNode (n_pc x) (n_lead x) (n_flag x) true, None)
+  | NSyncInstall r =>
+      if n_pending x then (mkNode (n_pc x) (set_current (n_lead x) r) (n_flag x) false, None) else (x, None)
   end.
 
 Fixpoint nrun (x : node) (ls : list nlabel) : node * list (option N) :=
@@ -314,3 +320,5 @@ Fixpoint nrun (x : node) (ls : list nlabel) : node * list (option N) :=
   | [] => (x, [])
   | l :: tl => let '(x1, o) := nstep x l in let '(x2, os) := nrun x1 tl in (x2, o :: os)
   end.
+
+Definition is_sync_install (l : nlabel) : bool := match l with NSyncInstall _ => true | _ => false end.
